@@ -1,0 +1,146 @@
+//! Scriptable stand-in for the part of `reqwest` used by the tracker client.
+//!
+//! The request is always built by the real `reqwest::RequestBuilder`, so the URL is exactly what
+//! reqwest would send. Without an installed script the request is really sent; with a script the
+//! next scripted outcome is returned instead (and the URL is logged).
+
+use std::collections::VecDeque;
+use std::sync::Mutex;
+
+pub use reqwest::StatusCode;
+
+#[derive(Clone, Debug)]
+pub enum Outcome {
+    /// Connection could not be established.
+    Refused,
+    /// HTTP status (non-2xx is an error for the tracker client) with a body.
+    Reply(u16, Vec<u8>),
+    /// Never answers.
+    Hang,
+}
+
+struct Script {
+    outcomes: VecDeque<Outcome>,
+    when_empty: Outcome,
+    urls: Vec<String>,
+}
+
+static SCRIPT: Mutex<Option<Script>> = Mutex::new(None);
+
+/// Install a script: outcomes are consumed one per request, then `when_empty` forever.
+pub fn install(outcomes: Vec<Outcome>, when_empty: Outcome) {
+    *SCRIPT.lock().unwrap_or_else(|e| e.into_inner()) = Some(Script {
+        outcomes: outcomes.into(),
+        when_empty,
+        urls: vec![],
+    });
+}
+
+/// Append outcomes to the installed script.
+pub fn push(outcome: Outcome) {
+    if let Some(s) = SCRIPT.lock().unwrap_or_else(|e| e.into_inner()).as_mut() {
+        s.outcomes.push_back(outcome);
+    }
+}
+
+/// Remove the script (requests are really sent again).
+pub fn uninstall() {
+    *SCRIPT.lock().unwrap_or_else(|e| e.into_inner()) = None;
+}
+
+/// URLs requested while a script was installed.
+pub fn urls() -> Vec<String> {
+    match SCRIPT.lock().unwrap_or_else(|e| e.into_inner()).as_ref() {
+        Some(s) => s.urls.clone(),
+        None => vec![],
+    }
+}
+
+#[derive(Debug)]
+pub struct Error(String);
+
+impl std::fmt::Display for Error {
+    fn fmt(&self, f: &mut std::fmt::Formatter) -> std::fmt::Result {
+        write!(f, "{}", self.0)
+    }
+}
+
+impl std::error::Error for Error {}
+
+pub struct Client(reqwest::Client);
+
+pub struct RequestBuilder(reqwest::RequestBuilder);
+
+pub enum Response {
+    Real(reqwest::Response),
+    Scripted(u16, Vec<u8>),
+}
+
+impl Client {
+    pub fn new() -> Client {
+        Client(reqwest::Client::new())
+    }
+
+    pub fn get(&self, url: &String) -> RequestBuilder {
+        RequestBuilder(self.0.get(url))
+    }
+}
+
+impl RequestBuilder {
+    pub fn query<const N: usize>(self, params: &[(&str, String); N]) -> RequestBuilder {
+        RequestBuilder(self.0.query(&params[..]))
+    }
+
+    pub async fn send(self) -> Result<Response, Error> {
+        let scripted = {
+            let mut guard = SCRIPT.lock().unwrap_or_else(|e| e.into_inner());
+            match guard.as_mut() {
+                Some(script) => {
+                    let url = match self.0.try_clone().and_then(|b| b.build().ok()) {
+                        Some(req) => req.url().to_string(),
+                        None => "<unbuildable>".to_string(),
+                    };
+                    script.urls.push(url);
+                    Some(
+                        script
+                            .outcomes
+                            .pop_front()
+                            .unwrap_or(script.when_empty.clone()),
+                    )
+                }
+                None => None,
+            }
+        };
+
+        match scripted {
+            Some(Outcome::Refused) => Err(Error("error sending request: refused".to_string())),
+            Some(Outcome::Reply(status, body)) => Ok(Response::Scripted(status, body)),
+            Some(Outcome::Hang) => std::future::pending().await,
+            None => match self.0.send().await {
+                Ok(resp) => Ok(Response::Real(resp)),
+                Err(e) => Err(Error(e.to_string())),
+            },
+        }
+    }
+}
+
+impl Response {
+    pub fn status(&self) -> StatusCode {
+        match self {
+            Response::Real(r) => r.status(),
+            Response::Scripted(code, _) => {
+                StatusCode::from_u16(*code).unwrap_or(StatusCode::INTERNAL_SERVER_ERROR)
+            }
+        }
+    }
+
+    pub async fn bytes(self) -> Result<Vec<u8>, Error> {
+        match self {
+            Response::Real(r) => match r.bytes().await {
+                Ok(b) => Ok(b.to_vec()),
+                Err(e) => Err(Error(e.to_string())),
+            },
+            Response::Scripted(_, body) => Ok(body),
+        }
+    }
+}
